@@ -116,6 +116,18 @@ func (c *Ctl) atFile(point, file string, a, b int64) {
 
 func (c *Ctl) fault(point string) error {
 	n := atomic.AddInt64(c.counter("fault:"+point), 1)
+	if c.LogPoints != nil && (c.LogPoints["*"] || c.LogPoints["fault:"+point]) {
+		c.logEvent("at fault:%s %d", point, n)
+	}
+	if c.CrashPoint == "fault:"+point && n == c.CrashAt {
+		// a crash right before the write the fault point guards (mid-sequence crash)
+		c.logEvent("crash fault:%s %d", point, n)
+		code := c.ExitCode
+		if code == 0 {
+			code = 77
+		}
+		os.Exit(code)
+	}
 	if c.FaultPoint == point && n == c.FaultAt {
 		c.logEvent("fault %s %d", point, n)
 		return fmt.Errorf("verif: injected I/O error at %s (hit %d)", point, n)
